@@ -288,11 +288,10 @@ def _export_ili_definition(synset_rowid: int) -> Optional[lmf.ILIDefinition]:
     _, _, defn, rowid = next(find_proposed_ilis(synset_rowid=synset_rowid),
                              (None, None, None, None))
     ilidef: Optional[lmf.ILIDefinition] = None
-    if defn:
-        meta = None
-        if rowid is not None:
-            meta = _export_metadata(rowid, 'proposed_ilis')
-        ilidef = {'text': defn, 'meta': meta}
+    if rowid is not None:
+        meta = _export_metadata(rowid, 'proposed_ilis')
+        if defn or meta:  # metadata may be given without a definition text
+            ilidef = {'text': defn or '', 'meta': meta}
     return ilidef
 
 
